@@ -7,6 +7,7 @@ from .. import refmodel as R
 from .. import shapes as S
 
 PROPERTY = "C01"
+VIA_HISTORY_EVERY = 7      # every k-th shape case is also run on an object that reached its definition through edits
 RULE = ("E1: parametric dimension 1..3 x rational/non-rational x degrees x knot vectors (K(p,B,G) for curves, K'(p) "
         "Cartesian products for surfaces/volumes, unclamped, affine non-normalised images with normalize_kv on/off) x "
         "pairwise different sizes x nets (coded, unit, seeded) x weights; every entry point (evaluate_single, "
@@ -105,6 +106,18 @@ def gen_cases(tier, seed):
             vs = _variants([ku, kv, kw], [pu, pv, pw], tier, full_units=not q)
             for d in (vs[:2] + vs[-2:]) if q else vs:
                 cases.append(dict(shape=d, grid=(pu + pv + pw) <= 4))
+    # volumes whose directions have different domains: unclamped in one direction, and non-normalised ranges per direction
+    for (pu, pv, pw) in ((1, 2, 1), (2, 1, 1), (1, 1, 2)):
+        kvs = [A.rep_kvs(pu, 1)[1], A.rep_kvs(pv, 1)[0], A.rep_kvs(pw, 1)[2]]
+        for a in range(3):
+            k2 = list(kvs)
+            k2[a] = A.unclamped_kvs([pu, pv, pw][a], [pu, pv, pw][a] + 2)[0]
+            for rat in (False, True):
+                cases.append(dict(shape=A.shape_desc(k2, [pu, pv, pw], rat, 3, 'coded', 'coded'), grid=True, unclamped=True))
+        for norm in (True, False):
+            aff = [A.affine_kv(kvs[0], 0.0, 2.0), A.affine_kv(kvs[1], 1.0, 2.0), A.affine_kv(kvs[2], -1.0, 4.0)]
+            cases.append(dict(shape=A.shape_desc(aff, [pu, pv, pw], False, 3, 'coded', normalize_kv=norm), grid=True,
+                              affine=[0.0, 2.0], base=kvs))
     return cases
 
 
@@ -194,6 +207,34 @@ def run_case(case, ctx):
     # -- sampled grid
     if case.get('grid', True):
         _grid(case, ctx, obj, model, desc, pts, scale, feats)
+    # -- a shallow copy that is edited and evaluated must not change what the original evaluates to
+    if desc['net'] == 'coded' and not case.get('params'):
+        import copy as _copy
+        snap0 = S.snapshot(obj)
+        c2 = _copy.copy(obj)
+        other = [[c + 3.0 for c in p] for p in (pw if desc['rational'] else pts)]
+        if pd == 1:
+            c2.set_ctrlpts(other)
+        else:
+            c2.set_ctrlpts(other, *desc['sizes'])
+        probe = plist[len(plist) // 2]
+        arg = probe[0] if pd == 1 else list(probe)
+        c2.evaluate_single(arg)
+        c2.evaluate_list([arg])
+        if pd <= 2:
+            (c2.derivatives(arg, 0) if pd == 1 else c2.derivatives(arg[0], arg[1], 0))
+        # shallow copies share mutable internals by design, so editing one may legitimately edit the other; the
+        # obligation only applies while the original's definition, read through the public API, is still the same
+        try:
+            same_def = S.snapshot(obj) == snap0
+        except Exception:
+            same_def = False
+        if same_def:
+            ctx.close('C01.after_shallow_copy_edit', [obj.evaluate_single(arg), obj.evaluate_list([arg])[0]],
+                      [exp[probe], exp[probe]], TOL, scale, dict(rc, params=[[x] for x in probe]), feats)
+        else:
+            ctx.extra['shallow_copy_edit_changed_original_definition'] += 1
+            pass
 
 
 def _grid(case, ctx, obj, model, desc, pts, scale, feats):
